@@ -131,42 +131,17 @@ def preNum (b : UInt8) : Nat :=
   else if b < 0xC0 then 1 else if b < 0xE0 then 2 else if b < 0xF0 then 3
   else if b < 0xF8 then 4 else if b < 0xFC then 5 else if b < 0xFE then 6 else if b < 0xFF then 7 else 8
 
-def takeCont : Nat → Bytes → Option Bytes
-  | 0, r => some r
-  | _ + 1, [] => none
-  | n + 1, c :: r => if c &&& 0xC0 == 0x80 then takeCont n r else none
+/-- `codingconv.isUtf8` as a scan with a counter of continuation bytes still owed (note `num > 2`:
+    two-byte sequences are rejected) -/
+def utf8Go : Nat → Bytes → Bool
+  | 0, [] => true
+  | _ + 1, [] => false
+  | 0, b :: r =>
+    if b &&& 0x80 == 0 then utf8Go 0 r
+    else if preNum b > 2 then utf8Go (preNum b - 1) r else false
+  | n + 1, c :: r => if c &&& 0xC0 == 0x80 then utf8Go n r else false
 
-/-- `codingconv.isUtf8` (note `num > 2`: two-byte sequences are rejected) -/
-def isUtf8 : Bytes → Bool
-  | [] => true
-  | b :: r =>
-    if b &&& 0x80 == 0 then isUtf8 r
-    else
-      let num := preNum b
-      if num > 2 then
-        match h : takeCont (num - 1) r with
-        | some r' => isUtf8 r'
-        | none => false
-      else false
-termination_by l => l.length
-decreasing_by
-  · simp
-  · simp
-    have : ∀ (n : Nat) (r r' : Bytes), takeCont n r = some r' → r'.length ≤ r.length := by
-      intro n
-      induction n with
-      | zero => intro r r' h; simp [takeCont] at h; simp [h]
-      | succ n ih =>
-        intro r r' h
-        cases r with
-        | nil => simp [takeCont] at h
-        | cons c t =>
-          simp only [takeCont] at h
-          split at h
-          · have := ih t r' h; simp; omega
-          · simp at h
-    have := this _ _ _ h
-    omega
+def isUtf8 (s : Bytes) : Bool := utf8Go 0 s
 
 /-- `utf8.RuneCountInString` on bytes: every byte that is not a continuation byte of a well-formed
     sequence starts a rune; malformed bytes count one each.  (Used only on `isUtf8` strings, where it
